@@ -55,7 +55,7 @@ def _profile(dup):
     return gen.profile("full", p_dup_key=0.5 if dup else 0.0, p_after=0.15, p_invoke=0.2,
                        p_history=0.25, p_hist_target=0.25, p_hist_default=0.0, p_custom_id=0.0,
                        final_out=False, max_states=14, p_parallel=0.3, p_guard=0.3, p_root_on=0.5,
-                       max_cands=4)
+                       max_cands=4, p_forbidden=0.08)
 
 
 # ---------------------------------------------------------------------------
@@ -83,6 +83,9 @@ def prepare(case, rng):
                     hooks[new] = (node.id, fld, lst[-1])
                     lst[-1] = new
         for ev, lst in list((sd.get("on") or {}).items()):
+            if lst is None:
+                NULLS[0] += 1     # `null`: the event is forbidden here; stays in the State's on dict
+                continue
             if node.kind == "history" or ev == "" or node.parent is None:
                 continue          # machine-level handlers live in the root State's on dict
             ok = all(isinstance(t, dict) and (t.get("guard") is None or isinstance(t.get("guard"), str))
@@ -149,6 +152,7 @@ def render_states(cfg, case, moved):
 
 
 SHAPES = {}
+NULLS = [0]
 
 
 def render_transitions(cfg, case, moved, objs, rng):
@@ -422,6 +426,8 @@ def api_case(res, spec, idx, tier):
         for k_, v_ in SHAPES.items():
             res.count("api.unions." + k_, v_)
         SHAPES.clear()
+        res.count("api.null-handlers", NULLS[0])
+        NULLS[0] = 0
         if nt >= 2 and any(n.depth >= 2 for n in case.tree.order):
             res.hashes.add(h([case.plan, style, sorted(moved.items())]))
         d = fingerprint.diff(fp0, fingerprint.machine_fp(m1))
@@ -840,7 +846,7 @@ def quota(counters, tier):
     for k in ("api.built.functional", "api.built.builder", "api.built.class", "api.traces-compared",
               "api.rebuilds", "api.transition-objects", "api.overlapping-definitions",
               "api.cases-with-names-reused-at-different-depths", "api.unions.transition|group",
-              "api.unions.group|transition", "api.builder-context-override-builds",
+              "api.unions.group|transition", "api.builder-context-override-builds", "api.null-handlers",
               "discovery.runs.module", "discovery.runs.provider", "discovery.runs.subclass",
               "discovery.bindings-checked", "discovery.missing-reported",
               "discovery.composite-guards-accepted", "discovery.builtins-not-required",
